@@ -94,9 +94,27 @@ def analyse_new(prog: Program, cls: str, locks: Set[str]) -> Tuple[bool, str, Di
                    "and both insert, ending with different objects for one key"), facts
 
 
+def table_types(rep: Report, prog: Program) -> None:
+    """R20.4: `dict.setdefault` is one atomic step only for the builtin dict (a C method under the GIL).
+    A WeakValueDictionary, an OrderedDict subclass or any Python-level mapping implements it as a read
+    followed by a store - and a weak table also lets the interned object disappear, so that a later
+    evaluation makes a new one."""
+    for cls in ARMED:
+        ci = prog.cls(cls)
+        v = ci.class_attrs.get("_known")
+        val = getattr(v, "value", v)
+        ok = isinstance(val, ast.Dict) and not val.keys or (isinstance(val, ast.Call) and ast.unparse(val.func) == "dict" and not val.args and not val.keywords)
+        rep.check("R20.4", f"{cls}._known", bool(ok),
+                  f"{cls}._known is initialised as `{ast.unparse(val)[:50] if val is not None else None}`, not a builtin dict: setdefault on it is not a single "
+                  "atomic step, so two threads that both miss can each store their own object (and a weak table forgets interned objects)",
+                  f"{ci.path}:{getattr(v, 'lineno', ci.node.lineno)}")
+
+
 def run(rep: Report) -> None:
     prog = Program()
     resolver = Resolver(prog)
+    rep.rule("R20.4", "the intern tables are builtin dicts (the only mapping whose setdefault is atomic under the GIL)", floor=3)
+    table_types(rep, prog)
     rep.rule("R20.1", "atomic intern: in Dimension/Prefix/Unit.__new__ the membership test and the insertion into _known are one "
              "atomic step (one `with` on a module-level lock, or cls._known.setdefault(key, obj) whose result is returned)", floor=3)
     rep.rule("R20.1i", "inventory: the same rule on Logarithm / LogarithmicUnit (not covered by the property's statement)", armed=False)
